@@ -6,10 +6,12 @@ import (
 	"context"
 	"fmt"
 	"sort"
+	"strings"
 
 	"github.com/samsarahq/thunder/federation"
 	"github.com/samsarahq/thunder/graphql"
 	"github.com/samsarahq/thunder/graphql/schemabuilder"
+	"vrt/rt"
 )
 
 type User struct {
@@ -64,13 +66,20 @@ var RootFields = []string{"users", "user", "devices", "everyone", "admins", "nob
 
 // "boom" is an optional failing root field (only registered when the assignment names it).
 
-// Assignment maps every extra and root field to a service name.
+// Assignment maps every extra and root field to a service name, or to several ("s1+s2": each of them serves it).
 type Assignment map[string]string
+
+// On reports whether service serves field f.
+func (a Assignment) On(f, service string) bool {
+	return strings.Contains("+"+a[f]+"+", "+"+service+"+")
+}
 
 func (a Assignment) Services() []string {
 	seen := map[string]bool{}
-	for _, s := range a {
-		seen[s] = true
+	for _, ss := range a {
+		for _, s := range strings.Split(ss, "+") {
+			seen[s] = true
+		}
 	}
 	var out []string
 	for s := range seen {
@@ -102,7 +111,7 @@ func Build(d *Data, a Assignment, service string) *schemabuilder.Schema {
 	} else {
 		s = schemabuilder.NewSchemaWithName(service)
 	}
-	has := func(f string) bool { return mono || a[f] == service }
+	has := func(f string) bool { return mono || a.On(f, service) }
 	needs := map[string]bool{}
 	uses := map[string][]string{ // which object types a field touches
 		"users": {"User"}, "user": {"User"}, "nobody": {"User"}, "noUsers": {"User"}, "devices": {"Device"}, "everyone": {"User", "Admin"}, "admins": {"Admin"},
@@ -246,10 +255,16 @@ type Recorder struct {
 	Name     string
 	Inner    federation.ExecutorClient
 	Requests []*graphql.Query
+	// Atomic: the service answers in one step (no scheduling choice is explored inside the service's own execution)
+	Atomic bool
 }
 
-func (r *Recorder) Execute(ctx context.Context, req *federation.QueryRequest) (*federation.QueryResponse, error) {
+func (r *Recorder) Execute(ctx context.Context, req *federation.QueryRequest) (resp *federation.QueryResponse, err error) {
 	r.Requests = append(r.Requests, req.Query)
+	if r.Atomic {
+		rt.NoBranch(func() { resp, err = r.Inner.Execute(ctx, req) })
+		return
+	}
 	return r.Inner.Execute(ctx, req)
 }
 
@@ -261,25 +276,59 @@ type Gateway struct {
 	Cancel    context.CancelFunc
 }
 
-// NewGateway builds the services of an assignment and a gateway in front of them.
-// It must run inside a scheduler run (the gateway spawns its poll goroutine).
-func NewGateway(ctx context.Context, d *Data, a Assignment, selector federation.ServiceSelector) (*Gateway, error) {
-	g := &Gateway{Recorders: map[string]*Recorder{}, Schemas: map[string]*graphql.Schema{}}
-	execs := map[string]federation.ExecutorClient{}
+// Deployment is the set of running services of an assignment (immutable: may be shared between executions).
+type Deployment struct {
+	Schemas map[string]*graphql.Schema
+	Servers map[string]*federation.Server
+}
+
+func Deploy(d *Data, a Assignment) (*Deployment, error) {
+	dep := &Deployment{Schemas: map[string]*graphql.Schema{}, Servers: map[string]*federation.Server{}}
 	for _, svc := range a.Services() {
 		schema := Build(d, a, svc).MustBuild()
 		srv, err := federation.NewServer(schema)
 		if err != nil {
 			return nil, err
 		}
-		g.Schemas[svc] = schema
-		rec := &Recorder{Name: svc, Inner: &federation.DirectExecutorClient{Client: srv}}
+		dep.Schemas[svc], dep.Servers[svc] = schema, srv
+	}
+	return dep, nil
+}
+
+// NewGateway builds the services of an assignment and a gateway in front of them.
+// It must run inside a scheduler run (the gateway spawns its poll goroutine).
+func NewGateway(ctx context.Context, d *Data, a Assignment, selector federation.ServiceSelector) (*Gateway, error) {
+	dep, err := Deploy(d, a)
+	if err != nil {
+		return nil, err
+	}
+	var wrap func(federation.SchemaSyncer) federation.SchemaSyncer
+	if selector != nil {
+		wrap = func(in federation.SchemaSyncer) federation.SchemaSyncer {
+			return &federation.VerifSelectorSyncer{Inner: in, Selector: selector}
+		}
+	}
+	return NewGatewayOn(ctx, dep, wrap)
+}
+
+// NewGatewayOn puts a gateway (fresh recorders, fresh Executor) in front of an existing deployment.
+func NewGatewayOn(ctx context.Context, dep *Deployment, wrap func(federation.SchemaSyncer) federation.SchemaSyncer) (*Gateway, error) {
+	g := &Gateway{Recorders: map[string]*Recorder{}, Schemas: map[string]*graphql.Schema{}}
+	execs := map[string]federation.ExecutorClient{}
+	var svcs []string
+	for svc := range dep.Servers {
+		svcs = append(svcs, svc)
+	}
+	sort.Strings(svcs)
+	for _, svc := range svcs {
+		g.Schemas[svc] = dep.Schemas[svc]
+		rec := &Recorder{Name: svc, Inner: &federation.DirectExecutorClient{Client: dep.Servers[svc]}}
 		g.Recorders[svc] = rec
 		execs[svc] = rec
 	}
 	var syncer federation.SchemaSyncer = federation.NewIntrospectionSchemaSyncer(ctx, execs, nil)
-	if selector != nil {
-		syncer = &federation.VerifSelectorSyncer{Inner: syncer, Selector: selector}
+	if wrap != nil {
+		syncer = wrap(syncer)
 	}
 	e, err := federation.NewExecutor(ctx, execs, &federation.SchemaSyncerConfig{SchemaSyncer: syncer})
 	if err != nil {
